@@ -275,8 +275,18 @@ impl DrawExecutor {
     }
 
     fn get_pixel(&mut self, x: i32, y: i32) -> u8 {
-        let offset = (y * self.get_resolution().width + x) as usize;
-        self.screen[offset]
+        let res = self.get_resolution();
+        if x < 0 || y < 0 || x >= res.width || y >= res.height {
+            return 0;
+        }
+        self.screen.get((y * res.width + x) as usize).copied().unwrap_or(0)
+    }
+
+    /// clips a blit source rectangle to `size`
+    fn clip_blit(from: Position, to: Position, size: Size) -> (Position, Position) {
+        let from = Position::new(from.x.clamp(0, size.width), from.y.clamp(0, size.height));
+        let to = Position::new(to.x.clamp(from.x, size.width), to.y.clamp(from.y, size.height));
+        (from, to)
     }
 
     fn fill_pixel(&mut self, x: i32, y: i32) {
@@ -599,6 +609,9 @@ impl DrawExecutor {
     }
 
     fn blit_screen_to_screen(&mut self, _write_mode: i32, from: Position, to: Position, dest: Position) {
+        let dest = dest - from;
+        let (from, to) = Self::clip_blit(from, to, self.get_resolution());
+        let dest = dest + from;
         let width = to.x - from.x;
         let height = to.y - from.y;
 
@@ -626,7 +639,10 @@ impl DrawExecutor {
                 if dest.x + x >= res.width {
                     break;
                 }
-                let offset = (yp * width + xp) as usize;
+                if xp < 0 || yp < 0 || xp >= self.screen_memory_size.width || yp >= self.screen_memory_size.height {
+                    continue;
+                }
+                let offset = (yp * self.screen_memory_size.width + xp) as usize;
                 let color = self.screen_memory[offset];
                 self.set_pixel(dest.x + x, dest.y + y, color);
             }
@@ -634,6 +650,7 @@ impl DrawExecutor {
     }
 
     fn blit_screen_to_memory(&mut self, _write_mode: i32, from: Position, to: Position) {
+        let (from, to) = Self::clip_blit(from, to, self.get_resolution());
         let width = to.x - from.x;
         let height = to.y - from.y;
 
